@@ -11,6 +11,7 @@ from __future__ import annotations
 import json
 import os
 import shutil
+from collections import Counter
 import sys
 import traceback
 
@@ -444,6 +445,23 @@ class Sim:
             return "ok", False
         if kind == "dedup":
             dupes, dupidx, first = net.find_duplicate_reaction(op["mode"])
+            # De-duplication must remove exactly the later copies: nothing else may be lost, no copy
+            # kept.  Judged where "copy" is unambiguous: mode "brief" (same reactant and product
+            # multisets) and the default mode when no held reaction has an unknown type (the
+            # documented equality is then an equivalence relation).  The string modes compare
+            # spellings and type names, which is C15's business; there the report is applied as is.
+            contents = [e["content"] for e in mod.held()]
+            eq = None
+            if op["mode"] == "brief":
+                def eq(a, b):
+                    return Counter(a[0]) == Counter(b[0]) and Counter(a[1]) == Counter(b[1])
+            elif op["mode"] is None and not any(c[4] == M.RT_UNKNOWN for c in contents):
+                eq = M.documented_equal
+            if eq is not None:
+                expected = [i for i in range(len(contents)) if any(eq(contents[j], contents[i]) for j in range(i))]
+                if sorted(dupidx) != expected:
+                    raise Violation("dedup-removes-wrong-reactions",
+                                    f"net {n}: de-duplication (mode {op['mode']!r}) reports {sorted(dupidx)} but the later copies are {expected}")
             net.remove_reaction(list(dupidx))
             mod.remove_indices(list(dupidx))
             return f"ok:{len(dupidx)}", False
